@@ -13,7 +13,8 @@ RULE = ("(1) /proc/stat records printed by the spec's kernel printer: 7-12 count
         "plus a malformed byte stream. (2) scripts of 2-7 calls of cpu_percent/cpu_times_percent (percpu or not; interval None, 0, >0 "
         "with the kernel moving during the sleep, <0) issued by 1-3 real threads in a scripted order over successive snapshots whose "
         "per-field deltas are drawn from {0, 1 tick, <1 s, >=1 s, backwards, huge}; (3) scripts of Process.cpu_percent calls on two "
-        "Process objects of one pid with scripted monotonic clock, utime/stime and cpu_count(). Non-trivial = at least one counter "
+        "Process objects of one pid with scripted monotonic clock, cpu_count() and all five counters of the process tuple: utime/stime and, "
+        "independently, cutime/cstime/delayacct_blkio_ticks (mixed, moving alone, or standing still). Non-trivial = at least one counter "
         "or one call; distinct = distinct canonical case hash.")
 TRUSTED = ["correspondence harness props/C07.py + pv/ (fake /proc/stat, patched time.sleep, psutil._timer, cpu_count_logical, CLOCK_TICKS; "
            "real threads run one call at a time in scripted order; float results are snapped to the model's/spec's exact rational when "
@@ -203,27 +204,35 @@ def gen_script_raw(rng):
     return {"kind": "script_raw", "cls": "script-raw", "clk": clk, "events": evs}
 
 
-def gen_proc(rng, change_ncpu=False):
+def gen_proc(rng, change_ncpu=False, decoy="mixed"):
+    """decoy: how children_user (cutime), children_system (cstime), iowait (delayacct_blkio_ticks) move,
+    independently of utime/stime: 'mixed' (random), 'only' (ONLY the decoys move: the demanded value is 0),
+    'still' (they never move)"""
     clk = rng.choice(CLKS)
     n0 = rng.choice([1, 1, 2, 4, 8, 64, 0, -1])
     t = Fraction(rng.randint(0, 2 ** 20), 8)
     u, s = rng.randint(0, 10 ** 5), rng.randint(0, 10 ** 5)
+    d = [rng.randint(0, 10 ** 5), rng.randint(0, 10 ** 5), rng.randint(0, 10 ** 4)]
     evs = []
 
     def adv():
         nonlocal t, u, s
         t += Fraction(rng.choice([0, 1, 1, 8, 84, 8000, rng.randint(1, 10 ** 4)]), 8)
-        u += rng.choice([0, 1, 5, clk, rng.randint(0, 10 ** 4)])
-        s += rng.choice([0, 0, 1, 7, rng.randint(0, 10 ** 3)])
-        return [t.numerator, t.denominator], u, s
+        if decoy != "only":
+            u += rng.choice([0, 1, 5, clk, rng.randint(0, 10 ** 4)])
+            s += rng.choice([0, 0, 1, 7, rng.randint(0, 10 ** 3)])
+        if decoy != "still":
+            for i in range(3):
+                d[i] += rng.choice([0, 0, 1, 3, clk, 17 * clk, rng.randint(0, 10 ** 5)])
+        return [[t.numerator, t.denominator], u, s] + list(d)
     for _ in range(rng.randint(2, 7)):
         iv = rng.choice(["none", "none", "none", "zero", "pos", "neg"])
         n = rng.choice([1, 2, 3, 4, 16, 0]) if change_ncpu and rng.random() < 0.6 else n0
-        t1, u1, s1 = adv()
-        t2, u2, s2 = adv() if iv == "pos" else (t1, u1, s1)
-        evs.append({"obj": rng.randrange(2), "iv": iv, "ncpu": n, "t1": t1, "u1": u1, "s1": s1, "t2": t2, "u2": u2, "s2": s2,
-                    "zero": rng.choice([0, 0.0])})
-    return {"kind": "proc", "cls": "proc" + ("-ncpu-change" if change_ncpu else ""), "clk": clk, "events": evs}
+        r1 = adv()
+        r2 = adv() if iv == "pos" else list(r1)
+        evs.append({"obj": rng.randrange(2), "iv": iv, "ncpu": n, "r1": r1, "r2": r2, "zero": rng.choice([0, 0.0])})
+    return {"kind": "proc", "cls": "proc" + ("-ncpu-change" if change_ncpu else "") + {"mixed": "", "only": "-decoys-only", "still": "-decoys-still"}[decoy],
+            "clk": clk, "events": evs}
 
 
 def _exhaustive_shapes():
@@ -254,7 +263,9 @@ def gen_cases(rng, tier):
     for flavour, k in (("p", 110), ("tp-safe", 110), ("mixed", 90), ("mixed-any", 40), ("tp-sub", 40)):
         cases += [gen_script(rng, flavour, big) for _ in range(k * n)]
     cases += [gen_script_raw(rng) for _ in range(40 * n)]
-    cases += [gen_proc(rng) for _ in range(110 * n)]
+    cases += [gen_proc(rng) for _ in range(80 * n)]
+    cases += [gen_proc(rng, decoy="only") for _ in range(30 * n)]
+    cases += [gen_proc(rng, decoy="still") for _ in range(15 * n)]
     cases += [gen_proc(rng, True) for _ in range(25 * n)]
     return cases
 
@@ -291,8 +302,8 @@ def coq_term(case):
                                                     G.by(bytes.fromhex(e["k1"])), G.by(bytes.fromhex(e["k2"]))) for e in case["events"]]
         return "run_script_raw %s %s" % (clk, G.lst(evs))
     if k == "proc":
-        evs = ["(mk_pev %d %s %s %s %d %d %s %d %d)" % (e["obj"], IV[e["iv"]], G.z(e["ncpu"]), _q(e["t1"]), e["u1"], e["s1"],
-                                                        _q(e["t2"]), e["u2"], e["s2"]) for e in case["events"]]
+        rd = lambda r: "(mk_rd %s %d %d %d %d %d)" % (_q(r[0]), r[1], r[2], r[3], r[4], r[5])  # noqa: E731
+        evs = ["(mk_pev %d %s %s %s %s)" % (e["obj"], IV[e["iv"]], G.z(e["ncpu"]), rd(e["r1"]), rd(e["r2"])) for e in case["events"]]
         return "run_proc %s %s" % (clk, G.lst(evs))
     raise ValueError(k)
 
@@ -578,10 +589,14 @@ def _run_script(case, coq, psutil, root, time):
     return out
 
 
+def _set_proc_stat(fp, pid, r):
+    """/proc/<pid>/stat with utime (14), stime (15), cutime (16), cstime (17), delayacct_blkio_ticks (42)"""
+    fp.add(pid, utime=r[1], stime=r[2], cutime=r[3], cstime=r[4], blkio=r[5], nfields=52)
+
+
 def _run_proc(case, coq, psutil, fp, time):
     pid = 4242
-    ev0 = case["events"][0]
-    fp.add(pid, utime=ev0["u1"], stime=ev0["s1"])
+    _set_proc_stat(fp, pid, case["events"][0]["r1"])
     objs = {}
     now = {"t": 0.0}
     pending = {"then": None, "slept": 0}
@@ -591,9 +606,9 @@ def _run_proc(case, coq, psutil, fp, time):
     def fake_sleep(x):
         pending["slept"] += 1
         if pending["then"]:
-            t2, u2, s2 = pending["then"]
-            now["t"] = t2
-            fp.add(pid, utime=u2, stime=s2)
+            r2 = pending["then"]
+            now["t"] = float(Fraction(*r2[0]))
+            _set_proc_stat(fp, pid, r2)
     time.sleep = fake_sleep
     psutil._timer = lambda: now["t"]
     psutil._psplatform.cpu_count_logical = lambda: (None if ncpu["n"] == 0 else ncpu["n"])
@@ -603,13 +618,19 @@ def _run_proc(case, coq, psutil, fp, time):
             if e["obj"] not in objs:
                 objs[e["obj"]] = psutil.Process(pid)
             p = objs[e["obj"]]
-            t1 = Fraction(*e["t1"])
-            t2 = Fraction(*e["t2"])
+            t1 = Fraction(*e["r1"][0])
+            t2 = Fraction(*e["r2"][0])
             assert Fraction(float(t1)) == t1 and Fraction(float(t2)) == t2
             now["t"] = float(t1)
             ncpu["n"] = e["ncpu"]
-            fp.add(pid, utime=e["u1"], stime=e["s1"])
-            pending["then"], pending["slept"] = ((float(t2), e["u2"], e["s2"]) if e["iv"] == "pos" else None), 0
+            _set_proc_stat(fp, pid, e["r1"])
+            if idx == 0:
+                # the fake file really carries the five counters where psutil reads them
+                ct = p.cpu_times()
+                want = [Fraction(v, case["clk"]) for v in e["r1"][1:]]
+                got = [Fraction(x) for x in (ct.user, ct.system, ct.children_user, ct.children_system, ct.iowait)]
+                assert all(abs(a - b) <= Fraction(1, 10 ** 6) * max(1, b) for a, b in zip(got, want)), (got, want)
+            pending["then"], pending["slept"] = (e["r2"] if e["iv"] == "pos" else None), 0
             iv = {"none": None, "zero": e.get("zero", 0), "pos": 0.5, "neg": -0.5}[e["iv"]]
             r = _shape_outcome(lambda: p.cpu_percent(interval=iv), lambda x: (None, _frac(x)))
             is_val = r.get("t") == "Val"
